@@ -654,6 +654,9 @@ class C20(PropCheck):
         la = loadack_sessions(rng)
         res.exhaustive_blocks.append(f"load_ack: every length 0..33 x pipe -1..6 x 5 states = {len(la)} sessions")
         cs += [(l, "load_ack-exhaustive") for l in la]
+        # every method with optional parameters, called with them omitted (documented defaults)
+        from harness import gen_rf
+        cs += [(gen_rf.defaults_session(rng, "lite", cfg_op), "documented-defaults") for _ in range(100 if q else 1000)]
         return cs
 
     def nontrivial(self, line, io):
@@ -687,6 +690,8 @@ class C20(PropCheck):
                 f = judge_cfg(l, io)
             if f:
                 out.append(f)
+        seen = {f.case for f in out}
+        out += [f for f in judge_defaults(triples, self.impl) if f.case not in seen]
         if getattr(self, "_cov", None) is not None:
             try:
                 self._cov.stop()
